@@ -17,6 +17,8 @@ pub struct MultiSet {
     pub distinct_ratings: bool,
     /// ratings moved to the top of the usize range (distinct, straddling 2^63)
     pub huge_ratings: bool,
+    /// ratings by position taken from this table instead (mixes ordinary ratings with ratings beyond 2^63)
+    pub ratings: Option<Vec<usize>>,
     pub block: u64,
 }
 
@@ -29,7 +31,11 @@ pub fn store_at(set: &MultiSet, idx: u64) -> Vec<Rec> {
         .enumerate()
         .map(|(i, t)| {
             let r = if set.distinct_ratings { RATINGS[i % 12] } else { [7, 7, 3, 7, 3][i % 5] };
-            rec(100 + i, &set.menu[t], if set.huge_ratings { (1usize << 63) - 60 + r } else { r })
+            let r = match &set.ratings {
+                Some(table) => table[i % table.len()],
+                None => if set.huge_ratings { (1usize << 63) - 60 + r } else { r },
+            };
+            rec(100 + i, &set.menu[t], r)
         })
         .collect()
 }
@@ -51,29 +57,45 @@ pub fn multi_sets(tier: Tier) -> Vec<MultiSet> {
             menu.push(format!("{1}{0}{1}{0}", s.v, s.c));
         }
         if full {
-            sets.push(MultiSet { l, name: format!("stores<=3 over {} F1 titles", menu.len()), menu, lo: 0, hi: 3, queries: all_strings(&f1, 0, 3), limits: None, distinct_ratings: true, huge_ratings: false, block: 30 });
+            sets.push(MultiSet { l, name: format!("stores<=3 over {} F1 titles", menu.len()), menu, lo: 0, hi: 3, queries: all_strings(&f1, 0, 3), limits: None, distinct_ratings: true, huge_ratings: false, ratings: None, block: 30 });
         }
         // word-level menu: 12 titles
         let lex = lex_strings(l);
         let mut wmenu: Vec<String> = lex.clone();
         wmenu.push(format!("{} {}", lex[0], lex[4]));
         wmenu.push(format!("{}-{}", lex[7], lex[8]));
-        sets.push(MultiSet { l, name: "stores<=3 over 12 lexicon titles".into(), menu: wmenu.clone(), lo: 0, hi: 3, queries: word_queries(&lex, if full { 2 } else { 1 }), limits: None, distinct_ratings: true, huge_ratings: false, block: 20 });
+        sets.push(MultiSet { l, name: "stores<=3 over 12 lexicon titles".into(), menu: wmenu.clone(), lo: 0, hi: 3, queries: word_queries(&lex, if full { 2 } else { 1 }), limits: None, distinct_ratings: true, huge_ratings: false, ratings: None, block: 20 });
         // (ii) top-k machinery: 4, 5, 11, 12 records over a 3-title menu, small limits
         let tk: Vec<String> = vec![format!("{0}{1}", s.v, s.c), format!("{0}{1}{0}", s.v, s.c), format!("{1}{0} {0}{1}", s.v, s.c)];
         let tq: Vec<String> = vec![s.v.to_string(), format!("{0}{1}", s.v, s.c), format!("{0}{1}{0}", s.v, s.c), format!("{1}{0}", s.v, s.c), format!("{0}{1}{1}", s.v, s.c)];
         if full {
-            sets.push(MultiSet { l, name: "top-k: stores 4..5 over 3 titles".into(), menu: tk.clone(), lo: 4, hi: 5, queries: tq.clone(), limits: Some(vec![0, 1, 2, 3]), distinct_ratings: true, huge_ratings: false, block: 60 });
+            sets.push(MultiSet { l, name: "top-k: stores 4..5 over 3 titles".into(), menu: tk.clone(), lo: 4, hi: 5, queries: tq.clone(), limits: Some(vec![0, 1, 2, 3]), distinct_ratings: true, huge_ratings: false, ratings: None, block: 60 });
             let (lo, hi) = tier.pick((8, 8), (11, 12));
             let m = if tier == Tier::Thorough { tk.clone() } else { tk.clone() };
-            sets.push(MultiSet { l, name: format!("top-k: stores {}..{} over 3 titles", lo, hi), menu: m, lo, hi, queries: tq.clone(), limits: Some(vec![0, 1, 2, 3]), distinct_ratings: true, huge_ratings: false, block: 300 });
+            sets.push(MultiSet { l, name: format!("top-k: stores {}..{} over 3 titles", lo, hi), menu: m, lo, hi, queries: tq.clone(), limits: Some(vec![0, 1, 2, 3]), distinct_ratings: true, huge_ratings: false, ratings: None, block: 300 });
             if tier == Tier::Quick {
                 // the candidate cap (10 x limit) needs > 10 records: 11..12 over a 2-title menu
-                sets.push(MultiSet { l, name: "top-k: stores 11..12 over 2 titles".into(), menu: tk[..2].to_vec(), lo: 11, hi: 12, queries: tq.clone(), limits: Some(vec![0, 1, 2, 3]), distinct_ratings: true, huge_ratings: false, block: 300 });
+                sets.push(MultiSet { l, name: "top-k: stores 11..12 over 2 titles".into(), menu: tk[..2].to_vec(), lo: 11, hi: 12, queries: tq.clone(), limits: Some(vec![0, 1, 2, 3]), distinct_ratings: true, huge_ratings: false, ratings: None, block: 300 });
             }
         }
         // (iii) equal ratings and duplicate titles: order-free clauses only
-        sets.push(MultiSet { l, name: "ties: stores<=4 over 4 titles, equal ratings".into(), menu: vec![tk[0].clone(), tk[1].clone(), tk[0].to_uppercase(), format!("{} {}", tk[1], tk[0])], lo: 0, hi: 4, queries: tq, limits: None, distinct_ratings: false, huge_ratings: false, block: 40 });
+        sets.push(MultiSet { l, name: "ties: stores<=4 over 4 titles, equal ratings".into(), menu: vec![tk[0].clone(), tk[1].clone(), tk[0].to_uppercase(), format!("{} {}", tk[1], tk[0])], lo: 0, hi: 4, queries: tq, limits: None, distinct_ratings: false, huge_ratings: false, ratings: None, block: 40 });
+    }
+    sets
+}
+
+/// Stores of three records whose ratings mix ordinary values with values in the upper half of the usize range
+/// (every assignment of the three ratings to the titles): a scorer that casts, subtracts or negates ratings wraps
+/// for some of them only.
+pub fn mixed_rating_sets() -> Vec<MultiSet> {
+    let big = 1usize << (usize::BITS - 1);
+    let mut sets = Vec::new();
+    for (k, table) in [vec![big + 100, 50, 200], vec![usize::MAX, 0, big - 1], vec![big / 2, big + big / 2, 5], vec![big, 1, big + 2]].into_iter().enumerate() {
+        for l in [L::None, L::En] {
+            let lex = lex_strings(l);
+            let menu: Vec<String> = vec![lex[4].clone(), lex[5].clone(), lex[6].clone(), format!("{} {}", lex[4], lex[9])];
+            sets.push(MultiSet { l, name: format!("stores of 3 over 4 lexicon titles, ordinary and beyond-2^63 ratings mixed (table {})", k + 1), menu, lo: 3, hi: 3, queries: word_queries(&lex, 1), limits: None, distinct_ratings: true, huge_ratings: true, ratings: Some(table.clone()), block: 10 });
+        }
     }
     sets
 }
@@ -92,7 +114,9 @@ impl C06 {
                 big.push((l, n));
             }
         }
-        C06 { sets: multi_sets(tier), big }
+        let mut sets = multi_sets(tier);
+        sets.extend(mixed_rating_sets());
+        C06 { sets, big }
     }
 
     /// A store of n records that all share grams with the queries ("mug 17", "metal mug 5", ...), limits from 9 to n:
